@@ -335,7 +335,7 @@ Section Inv.
     - (* OGetterSet *) destruct v; cbn [snd]; [apply Inv_set_noncache|apply Inv_del_noncache]; auto.
     - (* OGetterDel *) destruct (env_has k (env s)); cbn [snd]; [apply Inv_del_noncache|]; auto.
     - apply Inv_set_noncache; auto.
-    - (* OEtagSet *) destruct v; cbn [snd]; apply Inv_set_noncache; auto.
+    - (* OEtagSet *) destruct v; cbn [snd]; [apply Inv_set_noncache|apply Inv_del_noncache]; auto.
     - (* OAcceptSet *) destruct v; cbn [snd]; [apply Inv_set_noncache|apply Inv_del_noncache]; auto.
     - (* OContentTypeSet *) destruct v; cbn [snd]; [apply Inv_set_noncache|apply Inv_del_noncache]; auto using noncache_CT.
     - apply Inv_set_noncache; auto using noncache_HOST.
